@@ -216,9 +216,14 @@ type Conc struct {
 	// ArchVia: how the policy gets its architecture: "" = the exported variable (arch.X86_64, ...), "name" = what arch.GetInfo
 	// returns for the architecture's name, "default" = not set at all (Assemble resolves the host's; only when Arch is the host's)
 	ArchVia string
-	W       int
-	X32Bit  int
-	NSys    int
+	// Pad (SetPadTable): every name of the real table that the concretisation does not use. Groups that list every abstract
+	// syscall by name (and nothing else) list these too: the policy then names the architecture's whole syscall table, and
+	// "unlisted" events are numbers outside the table only
+	Pad    []string
+	padNrs map[uint32]bool
+	W      int
+	X32Bit int
+	NSys   int
 }
 
 func (c *Conc) Describe() map[string]interface{} {
@@ -227,7 +232,7 @@ func (c *Conc) Describe() map[string]interface{} {
 		names = append(names, fmt.Sprintf("%s=%d", s.Name, s.Nr))
 	}
 	return map[string]interface{}{"arch": c.Arch.Name, "syscalls": names, "positions": c.Pos,
-		"hi_embedding": c.Hi.Name, "lo_embedding": c.Lo.Name, "little_endian": c.LE, "host_order": c.HostOrder, "arch_via": c.ArchVia, "w": c.W}
+		"hi_embedding": c.Hi.Name, "lo_embedding": c.Lo.Name, "little_endian": c.LE, "host_order": c.HostOrder, "arch_via": c.ArchVia, "padded_to_whole_table": len(c.Pad), "w": c.W}
 }
 
 func (c *Conc) Embed64(v int64) uint64 {
@@ -308,12 +313,61 @@ var canonicalOps = map[string]bool{"Equal": true, "NotEqual": true, "GreaterThan
 // SetParseOps makes Build obtain operations through the parser (seeded letter case).
 func (c *Conc) SetParseOps(rng *rand.Rand) { c.ParseOps, c.rngOps = true, rng }
 
+// SetPadTable prepares the whole-table variant (see Pad).
+func (c *Conc) SetPadTable() {
+	used := map[int]bool{}
+	for _, s := range c.Sys {
+		used[s.Nr] = true
+	}
+	nums := make([]int, 0, len(c.Arch.SyscallNumbers))
+	for n := range c.Arch.SyscallNumbers {
+		nums = append(nums, n)
+	}
+	sort.Ints(nums)
+	c.padNrs = map[uint32]bool{}
+	for _, n := range nums {
+		name := c.Arch.SyscallNumbers[n]
+		if !used[n] && c.Arch.SyscallNames[name] == n {
+			c.Pad = append(c.Pad, name)
+			c.padNrs[uint32(n)] = true
+		}
+	}
+}
+
+// WholeList: the group lists every abstract syscall by name and has no conditional entries.
+func WholeList(g *Group, nsys int) bool {
+	if len(g.Conds) != 0 || len(g.Names) != nsys {
+		return false
+	}
+	seen := map[int]bool{}
+	for _, n := range g.Names {
+		if n < 0 || n >= nsys || seen[n] {
+			return false
+		}
+		seen[n] = true
+	}
+	return true
+}
+
+// HasWholeList: some group of the policy is a WholeList.
+func HasWholeList(p *Policy, nsys int) bool {
+	for i := range p.Groups {
+		if WholeList(&p.Groups[i], nsys) {
+			return true
+		}
+	}
+	return false
+}
+
 func (c *Conc) Build(p *Policy) seccomp.Policy {
 	pol := seccomp.Policy{DefaultAction: seccomp.Action(actionConst[p.Def])}
-	for _, g := range p.Groups {
+	for gi, g := range p.Groups {
 		sg := seccomp.SyscallGroup{Action: seccomp.Action(actionConst[g.Act])}
 		for _, n := range g.Names {
 			sg.Names = append(sg.Names, c.sysName(n))
+		}
+		if len(c.Pad) > 0 && WholeList(&p.Groups[gi], c.NSys) {
+			sg.Names = append(sg.Names, c.Pad...)
 		}
 		for _, e := range g.Conds {
 			nc := seccomp.NameWithConditions{Name: c.sysName(e.Num)}
@@ -392,6 +446,9 @@ func (c *Conc) NrClass(nr int, x86pol bool) []uint32 {
 	listed := map[uint32]bool{}
 	for _, s := range c.Sys {
 		listed[uint32(s.Nr)] = true
+	}
+	for n := range c.padNrs {
+		listed[n] = true
 	}
 	if nr < c.NSys {
 		return []uint32{uint32(c.Sys[nr].Nr)}
